@@ -23,13 +23,30 @@ def tokens (v : Str) : List Str := (splitAll ',' v).map (fun x => lower (strip x
 def carries (r : Response) (name : String) (p : Str → Bool) : Bool :=
   r.fields.any (fun nv => nv.1 = name.toList && p nv.2)
 
+/-! the five named clauses -/
+def clStatus (r : Response) : Bool := r.status = some 101
+def clUpgrade (r : Response) : Bool :=
+  carries r "upgrade" (fun v => (tokens v).contains "websocket".toList)
+def clConnection (r : Response) : Bool :=
+  carries r "connection" (fun v => (tokens v).contains "upgrade".toList)
+def clAccept (acceptOf : Str → Str) (r : Response) (key : Str) : Bool :=
+  carries r "sec-websocket-accept" (fun v => v = acceptOf key)
+def clSubprotocol (r : Response) (offered : List Str) : Bool :=
+  offered.isEmpty
+    || carries r "sec-websocket-protocol" (fun v => offered.any (fun s => lower s = lower v))
+
 def established (acceptOf : Str → Str) (r : Response) (key : Str) (offered : List Str) : Bool :=
-  r.status = some 101
-  && carries r "upgrade" (fun v => (tokens v).contains "websocket".toList)
-  && carries r "connection" (fun v => (tokens v).contains "upgrade".toList)
-  && carries r "sec-websocket-accept" (fun v => v = acceptOf key)
-  && (offered.isEmpty
-      || carries r "sec-websocket-protocol" (fun v => offered.any (fun s => lower s = lower v)))
+  clStatus r && clUpgrade r && clConnection r && clAccept acceptOf r key && clSubprotocol r offered
+
+/-- name of the first clause that fails (`none` = established). -/
+def firstFailing (acceptOf : Str → Str) (r : Response) (key : Str) (offered : List Str) :
+    Option String :=
+  if !clStatus r then some "status-101"
+  else if !clUpgrade r then some "upgrade-token"
+  else if !clConnection r then some "connection-token"
+  else if !clAccept acceptOf r key then some "accept-exact"
+  else if !clSubprotocol r offered then some "subprotocol-offered"
+  else none
 
 /-- a redirect is never itself success -/
 def isRedirect (status : Option Int) : Bool :=
